@@ -7,7 +7,7 @@ REPO = os.environ.get('VERIF_REPO', '/repo')
 COQ = os.path.join(ROOT, 'coq')
 BUILD = os.path.join(ROOT, 'build')
 CXX_QUICK = ['g++', '-std=c++14', '-O1', '-g', '-fsanitize=address,undefined', '-fno-sanitize-recover=all']
-ENV = dict(os.environ, ASAN_OPTIONS='detect_leaks=0:abort_on_error=0', UBSAN_OPTIONS='print_stacktrace=0')
+ENV = dict(os.environ, ASAN_OPTIONS='detect_leaks=0:abort_on_error=0:max_allocation_size_mb=2048', UBSAN_OPTIONS='print_stacktrace=0')
 
 
 def sh(cmd, timeout=600, inp=None, cwd=None, env=None):
